@@ -506,6 +506,11 @@ FetchBlockScalar(t, s, literal) ==
   LET r == ScanBlockScalar(t, [SaveSK(s) EXCEPT !.ska = TRUE], literal) IN
   IF r[1].err # "" THEN r[1] ELSE Push(r[1], r[2])
 
+\* block_indent(): the indentation of the innermost block collection, ignoring the one-column indents
+RECURSIVE BlockIndentFrom(_, _, _)
+BlockIndentFrom(idts, i, ind) == IF i = 0 \/ idts[i].nbe THEN ind ELSE BlockIndentFrom(idts, i - 1, idts[i].indent)
+BlockIndent(s) == BlockIndentFrom(s.indents, Len(s.indents), s.indent)
+
 \* ---- flow scalars (fetch_flow_scalar / scan_flow_scalar) ----
 EscapeSimple(c) ==
   IF c = "0" THEN NUL ELSE IF c = "a" THEN CharOfCode(7) ELSE IF c = "b" THEN CharOfCode(8)
@@ -569,7 +574,7 @@ FSLoop(t, a, single, start) ==
   IF s.err # "" THEN a
   ELSE IF s.col = 0 /\ IsDocInd(t, s) THEN [a EXCEPT !.s = FailAt(s, "while scanning a quoted scalar, found unexpected document indicator", start)]
   ELSE IF Peek(t, s, 0) \in Z THEN [a EXCEPT !.s = FailAt(s, "while scanning a quoted scalar, found unexpected end of stream", start)]
-  ELSE IF s.col < s.indent THEN [a EXCEPT !.s = FailAt(s, "invalid indentation in quoted scalar", start)]
+  ELSE IF s.col < Max(s.indent, BlockIndent(s) + 1) THEN [a EXCEPT !.s = FailAt(s, "invalid indentation in quoted scalar", start)]
   ELSE LET c1 == FSChars(t, [s |-> s, str |-> a.str, lblanks |-> FALSE], single, start) IN
        IF c1.s.err # "" THEN [a EXCEPT !.s = c1.s]
        ELSE IF Peek(t, c1.s, 0) = (IF single THEN "'" ELSE "\"") THEN [a EXCEPT !.s = c1.s, !.str = c1.str]
@@ -651,10 +656,6 @@ PlainLoop(t, a, indent) ==
                THEN [a2 EXCEPT !.s = Fail(a2.s, "invalid indentation in flow construct")]
                ELSE PlainLoop(t, a2, indent)
 
-\* block_indent(): the indentation of the innermost block collection, ignoring the one-column indents
-RECURSIVE BlockIndentFrom(_, _, _)
-BlockIndentFrom(idts, i, ind) == IF i = 0 \/ idts[i].nbe THEN ind ELSE BlockIndentFrom(idts, i - 1, idts[i].indent)
-BlockIndent(s) == BlockIndentFrom(s.indents, Len(s.indents), s.indent)
 FetchPlain(t, s0) ==
   LET sv == [SaveSK(s0) EXCEPT !.ska = FALSE]
       \* in a flow collection the prepared one-column indents stay (they guard the indentation of its later lines)
